@@ -20,6 +20,7 @@ import (
 type Step struct {
 	F      string   `json:"f"`
 	Expect []string `json:"expect,omitempty"` // one per configured limit (index into Ns)
+	Alt    []string `json:"alt,omitempty"`    // the other admissible value per limit (requests with a trailer block)
 }
 type Path struct {
 	ID    int    `json:"id"`
@@ -99,6 +100,21 @@ func headerFrame(f string, sid uint32, tag string, enc *h2raw.Enc) []byte {
 	return h2raw.Headers(sid, true, blk, nil, 0)
 }
 
+func trailerRequest(f string, sid uint32, tag string, enc *h2raw.Enc) []byte {
+	fs := []h2raw.HF{{":method", "POST"}, {":authority", "vf.test"}, {":scheme", "https"}, {":path", "/r"}, {"x-vf-tag", tag}}
+	tr := []h2raw.HF{{"x-vf-trailer", "1"}}
+	blk, tblk := h2raw.Block(fs), h2raw.Block(tr)
+	if enc != nil {
+		blk = enc.Block(fs)
+		tblk = enc.Block(tr)
+	}
+	out := h2raw.Headers(sid, false, blk, nil, 0)
+	if f == "T1" {
+		return append(out, h2raw.Headers(sid, true, tblk, &h2raw.Prio{Dep: 5, Weight: 9}, 0)...)
+	}
+	return append(out, h2raw.Headers(sid, true, tblk, nil, 0)...)
+}
+
 func runPath(st *stack.Stack, p Path, out *Out, mu *sync.Mutex) {
 	fail := func(e string) {
 		mu.Lock()
@@ -129,14 +145,21 @@ func runPath(st *stack.Stack, p Path, out *Out, mu *sync.Mutex) {
 	for si, s := range p.Steps {
 		frames = append(frames, s.F)
 		nfr++
-		if strings.HasPrefix(s.F, "H") {
+		if strings.HasPrefix(s.F, "H") || strings.HasPrefix(s.F, "T") {
 			tag := fmt.Sprintf("p%d-s%d", p.ID, si)
-			if _, err := cl.Conn.Write(headerFrame(s.F, sid, tag, enc)); err != nil {
+			var wire []byte
+			if strings.HasPrefix(s.F, "T") {
+				// request HEADERS (block of H1) without END_STREAM and, right behind it, the trailer block that ends the stream
+				wire = trailerRequest(s.F, sid, tag, enc)
+			} else {
+				wire = headerFrame(s.F, sid, tag, enc)
+			}
+			if _, err := cl.Conn.Write(wire); err != nil {
 				fail("write: " + err.Error())
 				return
 			}
 			if err := hc.WaitStreams(sid); err != nil {
-				fail(fmt.Sprintf("after %v: %v goaway=%v", frames, err, hc.GoAway))
+				fail(fmt.Sprintf("after %v: %v goaway=%v payload=%x", frames, err, hc.GoAway, func() []byte { if hc.GoAway != nil { return hc.GoAway.Payload }; return nil }()))
 				return
 			}
 			rs := hc.Resp[sid]
@@ -148,13 +171,17 @@ func runPath(st *stack.Stack, p Path, out *Out, mu *sync.Mutex) {
 			}
 			nreq++
 			want := s.Expect[p.N]
+			alt := want
+			if len(s.Alt) > p.N {
+				alt = s.Alt[p.N]
+			}
 			kind := ""
 			switch {
 			case rs.Reset || rs.Status != "200" || fwd != 1:
 				kind = "request_failed"
 			case len(got) != 1:
 				kind = "header_count"
-			case got[0] != want:
+			case got[0] != want && got[0] != alt:
 				kind = "header_wrong"
 				if strings.Count(got[0], "|") != 3 {
 					kind = "not_four_parts"
